@@ -86,6 +86,25 @@ func (p Path) Instrs() []ssa.Instruction {
 // end of the path (last occurrence of the phi's block).
 func (p Path) Resolve(v ssa.Value) ssa.Value {
 	for depth := 0; depth < 8; depth++ {
+		// named results spilled to an Alloc (functions with defer): the last store on the path
+		if ld, ok := v.(*ssa.UnOp); ok && ld.Op == token.MUL {
+			if al, ok := ld.X.(*ssa.Alloc); ok {
+				var last ssa.Value
+				for _, in := range p.Instrs() {
+					if in == ssa.Instruction(ld) {
+						break
+					}
+					if st, ok := in.(*ssa.Store); ok && st.Addr == ssa.Value(al) {
+						last = st.Val
+					}
+				}
+				if last == nil {
+					return v
+				}
+				v = last
+				continue
+			}
+		}
 		phi, ok := v.(*ssa.Phi)
 		if !ok {
 			return v
